@@ -10,6 +10,7 @@ import engine_pan as pan
 import engine_bit as bit
 import engine_pol as pol
 import engine_sup as sup
+import engine_env as env
 
 PROPS = {
     "C02": {
@@ -208,6 +209,18 @@ PROPS = {
                        "(Pipe≍DubSlash, Star≍EmptySet, Arrow≍GreaterThan, Eol≍Comment at follow-set positions).",
         "does_not_decide": "spaces inside matrices, alpha-letter / variable-number renaming, doubled segment ≍ length mark (semantic).",
         "assumptions": ["doc/doc.md keeps its '### Inbuilt Aliases' code blocks", "a helper that tests both members of a pair satisfies SYN-1 by itself"],
+    },
+    "C03": {
+        "rules": [("ENV-1", env.env1), ("ENV-2", env.env2), ("PAN-5", pan.pan5)],
+        "explanation": "Decides the plumbing clauses of C03 ('whose left neighbours match the context and do not match the exception', 'scanning left to right'), not the rewrite semantics. "
+                       "ENV-1: in SubRule::match_contexts_and_exceptions, for contexts and for exceptions alike, the before-half is a reversed copy of the pair's first element, matched by "
+                       "match_before_env on `word.reverse()` at `start_pos.reversed(word)`; the after-half is the pair's second element, matched by match_after_env on the word at end_pos; "
+                       "both halves are required (&&) and an empty half is vacuous; is_context is true for contexts and false for exceptions; without contexts the context counts as matched; "
+                       "the verdict is `!exception_matched && context_matched`. ENV-2: match_before_env matches with forwards = false, match_after_env with forwards = true, and each of the "
+                       "18 calls between context matchers hands the caller's own `forwards` on. PAN-5: the cursor handed back to the scan loop has been advanced past the rewrite.",
+        "does_not_decide": "that the matchers accept exactly the segments the elements denote, the position arithmetic (SegPos increment / reversed), long segments, the order of already-rewritten "
+                           "versus not-yet-rewritten neighbours: the equality with a reference interpreter is a behavioural statement outside static reach.",
+        "assumptions": ["Word::reverse and SegPos::reversed are mutually consistent (not checked)"],
     },
     "C04": {
         "controls": ["BIT"],
